@@ -90,6 +90,33 @@ def _buf_consts(A, x):
     return b * b[::-1] + b
 
 
+def _buf_const_array(A, x):
+    # an ndarray constant written into a slice of a traced buffer
+    b = A.zeros(3, dtype=x)
+    b[0:2] = np.array([3., 4.])
+    b[2] = x[0] * x[1]
+    return b * x
+
+
+def _buf_shift_down(A, x):
+    # in-place write whose right hand side is an overlapping view of the same buffer
+    y = x * 1.0
+    y[0:2] = y[1:3]
+    return y * x
+
+
+def _buf_shift_up(A, x):
+    y = x * 1.0
+    y[1:3] = y[0:2]
+    return y * x
+
+
+def _buf_self(A, x):
+    y = x * 1.0
+    y[...] = y[::-1]
+    return y * x
+
+
 def _paused(A, x):
     # recording is suspended with trace_off() and resumed with trace_on(): what ran while
     # recording was on is on the tape, what ran in between is not
@@ -180,6 +207,8 @@ def catalogue():
     add('x[1:]*x[:-1]', lambda A, x: x[1:] * x[:-1], group='index')
     add('x[::2]', lambda A, x: x[::2] * 2.0, group='index')
     add('x[-1]', lambda A, x: x[-1] * x[-1], group='index')
+    add('x[int64(1)]*x[int64(0)]', lambda A, x: x[np.int64(1)] * x[np.int64(0)] + x[np.int64(-1)], group='index')
+    add('x[None]*2', lambda A, x: x[None] * 2.0, group='index')
     add('m[0]*m[1]', lambda A, x: x[0] * x[1], shape=(2, 2), group='index')
     add('m[:,1]*m[0,:]', lambda A, x: x[:, 1] * x[0, :], shape=(2, 2), group='index')
     add('m[0,1]*m[1,0]', lambda A, x: x[0, 1] * x[1, 0], shape=(2, 2), group='index')
@@ -191,6 +220,10 @@ def catalogue():
     add('buffer, scalar broadcast into a slice', _buf_bcast_scalar, group='buffer')
     add('buffer, vector broadcast into columns', _buf_bcast_cols, group='buffer')
     add('buffer with constant entries', _buf_consts, group='buffer')
+    add('buffer, ndarray constant into a slice', _buf_const_array, group='buffer')
+    add('buffer, y[0:2] = y[1:3]', _buf_shift_down, group='buffer')
+    add('buffer, y[1:3] = y[0:2]', _buf_shift_up, group='buffer')
+    add('buffer, y[...] = y[::-1]', _buf_self, group='buffer')
     add('paused recording', _paused, group='buffer')
     add('paused recording twice', _paused_twice, group='buffer')
     add('prod(x)+sum(x*x)', lambda A, x: A.prod(x) + A.sum(x * x), group='reduce')
@@ -211,6 +244,10 @@ def catalogue():
     add('trace', lambda A, x: A.trace(A.dot(x, x)), shape=(2, 2), group='reduce')
     add('diag(mat)', lambda A, x: A.diag(x) * 2.0, shape=(2, 2), group='shape')
     add('diag(vec)', lambda A, x: A.diag(x), group='shape')
+    add('diag(mat 2x3)', lambda A, x: A.diag(x) * 2.0, shape=(2, 3), group='shape')
+    add('diag(mat 3x2)', lambda A, x: A.diag(x) * 2.0, shape=(3, 2), group='shape')
+    add('trace(tall 3x2)', lambda A, x: A.trace(x) * x[0, 0], shape=(3, 2), group='reduce')
+    add('trace(wide 2x3)', lambda A, x: A.trace(x) * x[0, 0], shape=(2, 3), group='reduce')
     add('tril', lambda A, x: A.tril(x) * x, shape=(2, 2), group='shape')
     add('triu', lambda A, x: A.triu(x) * x, shape=(2, 2), group='shape')
     add('symvec', lambda A, x: A.symvec(x), shape=(2, 2), group='shape')
@@ -218,6 +255,7 @@ def catalogue():
     add('vecsym', lambda A, x: A.vecsym(x), group='shape')
     add('tile', lambda A, x: A.tile(x, 2), group='shape')
     add('tile(2,2)', lambda A, x: A.tile(x, (2, 2)), group='shape')
+    add('tile(int64(2))', lambda A, x: A.tile(x, np.int64(2)), group='shape')
     add('tile(2,3)', lambda A, x: A.tile(x, (2, 3)) * A.c['m'], shape=(2,), group='shape', consts={'m': (2, 6)})
     add('tile(3,1)', lambda A, x: A.tile(x, (3, 1)) * A.c['m'], shape=(2,), group='shape', consts={'m': (3, 2)})
     add('tile(mat,(2,3))', lambda A, x: A.tile(x, (2, 3)) * A.c['m'], shape=(2, 2), group='shape', consts={'m': (4, 6)})
@@ -231,6 +269,13 @@ def catalogue():
     add('dot(carr,mat)', lambda A, x: A.dot(A.c['c'], x), shape=(2, 2), group='dot', consts={'c': (2, 2)})
     add('dot(carr,vec)', lambda A, x: A.dot(A.c['c'], x), shape=(2,), group='dot', consts={'c': (2, 2)})
     add('outer', lambda A, x: A.outer(x, x[::-1]), group='dot')
+    add('outer(x,carr)', lambda A, x: A.outer(x, A.c['c']), group='dot', consts={'c': (2,)})
+    add('outer(carr,x)', lambda A, x: A.outer(A.c['c'], x), group='dot', consts={'c': (2,)})
+    add('dot(rank3,mat)', lambda A, x: A.dot(x, x[0]), shape=(2, 2, 2), group='dot')
+    add('dot(rank3,vec)', lambda A, x: A.dot(x, x[0, 0]), shape=(2, 2, 2), group='dot')
+    add('dot(vec,rank3)', lambda A, x: A.dot(x[0, 0], x), shape=(2, 2, 2), group='dot')
+    add('constnode*x', lambda A, x: A.const(np.array([2., 3., 5.])) * x, group='arith')
+    add('constnode+x, x/constnode', lambda A, x: A.const(1.5) + x / A.const(np.array([2., 3., 5.])), group='arith')
     add('outer(x,x*x)', lambda A, x: A.outer(x, x * x), shape=(2,), group='dot')
     # ---- linear algebra (exact inv/solve; LU model) ------------------------------
     add('inv', lambda A, x: A.inv(x), shape=(2, 2), group='linalg')
@@ -295,6 +340,15 @@ def catalogue():
     add('real(fft(x))', lambda A, x: A.real(A.fft.fft(x)) * x, shape=(4,), group='fft')
     add('real(ifft(fft(x,axis=0)*fft(x,axis=0),axis=0))', lambda A, x: A.real(A.fft.ifft(A.fft.fft(x, axis=0) * A.fft.fft(x, axis=0), axis=0)), shape=(2, 2), group='fft')
     add('real(fft(x,axis=-1))+imag', lambda A, x: A.real(A.fft.fft(x, axis=-1)) + A.imag(A.fft.fft(x, axis=-1)), shape=(2, 2), group='fft')
+    # real / imag parts consumed more than once, of complex and of real operands
+    add('imag(z)*imag(z)', lambda A, x: (lambda z: A.imag(z) * A.imag(z))(A.fft.fft(x)), shape=(4,), group='fft')
+    add('imag(z)+imag(z*z)', lambda A, x: (lambda z: A.imag(z) + A.imag(z * z))(A.fft.fft(x)), shape=(4,), group='fft')
+    add('imag(w)*real(w*w)', lambda A, x: (lambda w: A.imag(w) * A.real(w * w))(x * (1 + 2j)), group='fft')
+    add('real(x)*x', lambda A, x: A.real(x) * x + x * x * x, group='fft')
+    add('real(fft(x,n=2))', lambda A, x: A.real(A.fft.fft(x, n=2)) * x[:2], shape=(4,), group='fft')
+    add('imag(fft(x,n=4))', lambda A, x: A.imag(A.fft.fft(x, n=4)), shape=(2,), group='fft')
+    add('real(ifft(x))', lambda A, x: A.real(A.fft.ifft(x)) * x, shape=(4,), group='fft')
+    add('imag(ifft(x,n=2))', lambda A, x: A.imag(A.fft.ifft(x, n=2)), shape=(4,), group='fft')
     # complex intermediate combined with the real input on either side of - and /
     add('real(fft(x)-x)', lambda A, x: A.real(A.fft.fft(x) - x), shape=(4,), group='fft')
     add('real(x-fft(x))', lambda A, x: A.real(x - A.fft.fft(x)), shape=(4,), group='fft')
